@@ -53,9 +53,10 @@ class NullDom:
         self.P = P
         self._sum = {}
 
-    def analyse(self, fn, tainted_paths, depth=0, chain=()):
+    def analyse(self, fn, tainted_paths, depth=0, chain=(), gen=None, implies=None, follow_members=False):
         """tainted_paths: iterable of path strings (canonical).  Returns list of violations
-        [(ev, path, kind, detail)]."""
+        [(ev, path, kind, detail)].  gen: {id(event): path} - events after which `path` holds an unchecked
+        possibly-NULL value (e.g. the store of a raw malloc result)."""
         al = single_assign_aliases(fn)
         # do not alias-substitute locals that alias a tainted param: we track them as separate tainted paths
         init = frozenset(tainted_paths)
@@ -65,6 +66,11 @@ class NullDom:
             return pstr(canon(e, None))
 
         def transfer(ev, st):
+            if gen and id(ev) in gen:
+                return st0(ev, st) | {gen[id(ev)]}
+            return st0(ev, st)
+
+        def st0(ev, st):
             if not st:
                 return st
             k = ev['k']
@@ -101,8 +107,11 @@ class NullDom:
             p, good = f
             if i == good:
                 ps = pcanon(p)
-                if ps in st:
-                    return st - {ps}
+                rm = {ps}
+                if implies and ps in implies:
+                    rm |= implies[ps]       # members allocated before this one are non-NULL whenever it is
+                if rm & st:
+                    return st - rm
             return st
 
         def meet(a, b):
@@ -129,6 +138,23 @@ class NullDom:
                                 why = self.callee_derefs(n, fn, i, depth, chain)
                                 if why:
                                     viol.append((ev, ap, 'call', 'unchecked %s passed to %s (parameter %d), which %s' % (ap, n, i, why)))
+                            elif follow_members and n and depth < 3:
+                                # the object whose members are tracked is handed to a callee: continue there
+                                sub = [p for p in st if p.startswith(ap + '->')]
+                                if sub:
+                                    for g in self.P.resolve(n, fn)[:1]:
+                                        if g.nocfg or i >= len(g.params) or (g.key, i, 'm') in chain:
+                                            continue
+                                        pn = g.params[i][0]
+                                        t2 = [pn + p[len(ap):] for p in sub]
+                                        back = {pn + p[len(ap):]: p for p in sub}
+                                        imp2 = None
+                                        if implies:
+                                            imp2 = {pn + k[len(ap):]: {pn + x[len(ap):] for x in v if x.startswith(ap + '->')}
+                                                    for k, v in implies.items() if k.startswith(ap + '->')}
+                                        for e2, p2, k2, d2 in self.analyse(g, t2, depth + 1, chain + ((g.key, i, 'm'),), implies=imp2, follow_members=True):
+                                            if p2 in back:
+                                                viol.append((ev, back[p2], 'call', 'object passed to %s, where %s at %s' % (n, d2, g.loc(e2))))
                 st = transfer(ev, st)
         return viol
 
